@@ -369,6 +369,20 @@ func watchdog(name string, caseJSON []byte) func() {
 	return func() { t.Stop() }
 }
 
+// replayWatchdog is the watchdog of the replay path: a case that does not finish within
+// VERIF_CASE_TIMEOUT seconds prints REPLAY-HANG with all stacks and exits with status 4.
+func replayWatchdog(name string) func() {
+	secs := envInt("VERIF_CASE_TIMEOUT", 120)
+	t := time.AfterFunc(time.Duration(secs)*time.Second, func() {
+		buf := make([]byte, 1<<20)
+		n := runtime.Stack(buf, true)
+		fmt.Printf("REPLAY-HANG check=%s after %ds\n%s\n", name, secs, buf[:n])
+		os.Exit(4)
+	})
+
+	return func() { t.Stop() }
+}
+
 var propID = "C??"
 
 // SetID sets the property id used for panic signatures.
@@ -528,6 +542,26 @@ func Replay(t *testing.T) {
 	if path == "" {
 		t.Skip("no VERIF_REPLAY")
 	}
+	if st, err := os.Stat(path); err == nil && st.IsDir() {
+		// regression tier: every saved case in the directory, in name order
+		ents, _ := os.ReadDir(path)
+		n := 0
+		for _, e := range ents {
+			if e.IsDir() || !strings.HasSuffix(e.Name(), ".json") {
+				continue
+			}
+			n++
+			replayFile(t, filepath.Join(path, e.Name()))
+		}
+		fmt.Printf("REPLAY-OK files=%d\n", n)
+
+		return
+	}
+	replayFile(t, path)
+	fmt.Println("REPLAY-OK")
+}
+
+func replayFile(t *testing.T, path string) {
 	raw, err := os.ReadFile(path)
 	if err != nil {
 		t.Fatalf("replay: %v", err)
@@ -544,19 +578,20 @@ func Replay(t *testing.T) {
 			continue
 		}
 		setT(t)
+		stopWatch := replayWatchdog(rf.Check + " file=" + path)
 		r := ps.replay(rf.Case)
+		stopWatch()
 		for sig := range r.known {
 			fmt.Printf("REPLAY-KNOWN sig=%s\n", sig)
 		}
 		if r.failed {
-			fmt.Printf("REPLAY-VIOLATION sig=%s\n%s\n", r.Sig, r.Msg)
+			fmt.Printf("REPLAY-VIOLATION sig=%s file=%s\n%s\n", r.Sig, path, r.Msg)
 			t.Fatalf("violation reproduced: %s", r.Sig)
 		}
-		fmt.Println("REPLAY-OK")
 
 		return
 	}
-	t.Fatalf("replay: unknown check %q", rf.Check)
+	t.Fatalf("replay: unknown check %q in %s", rf.Check, path)
 }
 
 type propOut struct {
